@@ -422,9 +422,47 @@ def run(ctx):
         raise tlc.MachineryError("self-test: corrupted trace was accepted by TraceDPEntry")
     ctx.note("self-test: a trace with one corrupted value was rejected by TraceDPEntry")
     hooked_histories(ctx, rng, thorough)
+    apalache_inductive(ctx)
     for wdir in workdirs:
         import shutil
         shutil.rmtree(wdir, ignore_errors=True)
+
+
+def apalache_inductive(ctx):
+    """Unbounded candidate values: Apalache discharges Init => IndInv and
+    IndInv /\\ Next => IndInv' for the contract over all integers, and refutes
+    the defect constant (binding self-test)."""
+    import os
+    import shutil
+    import subprocess
+    import tempfile
+    import time
+    spec = os.path.join(tlc.SPEC_DIR, "apalache", "DPEntryInd.tla")
+    wdir = tempfile.mkdtemp(prefix="verif-apa-")
+    results = {}
+    try:
+        for name, args, want in (("base", ["--cinit=CInit", "--init=Init", "--length=0"], "NoError"),
+                                 ("step", ["--cinit=CInit", "--init=IndInit", "--length=1"], "NoError"),
+                                 ("defect", ["--cinit=CInitBug", "--init=IndInit", "--length=1"], "Error")):
+            start = time.time()
+            proc = subprocess.run(["apalache-mc", "check", "--inv=IndInv", f"--out-dir={wdir}/out"] + args + [spec],
+                                  cwd=wdir, capture_output=True, text=True, timeout=900, check=False)
+            outcome = [line.split("outcome is:")[1].split()[0] for line in proc.stdout.splitlines() if "outcome is:" in line]
+            results[name] = {"outcome": outcome[-1] if outcome else "?", "wall_s": round(time.time() - start, 1)}
+            if not outcome:
+                raise tlc.MachineryError(f"apalache-mc gave no outcome ({name}): {proc.stdout[-600:]} {proc.stderr[-300:]}")
+            if name == "defect":
+                if outcome[-1] != "Error":
+                    raise tlc.MachineryError("self-test: Apalache did not refute StaleBug = TRUE")
+            elif outcome[-1] != want:
+                ctx.violation(f"specification: the Entry contract is not inductive over the integers ({name}: {outcome[-1]})",
+                              {"engine": "E1-apalache", "obligation": name, "output": proc.stdout[-3000:]})
+    finally:
+        shutil.rmtree(wdir, ignore_errors=True)
+    ctx.extra["apalache"] = {"module": "spec/apalache/DPEntryInd.tla", "obligations": 2, "results": results,
+                             "cmd": "apalache-mc check --cinit=CInit --init=IndInit --inv=IndInv --length=1 DPEntryInd.tla"}
+    ctx.note("Apalache: Init => IndInv and IndInv /\\ Next => IndInv' hold for candidate values over all integers; "
+             "StaleBug = TRUE refuted")
 
 
 def hooked_histories(ctx, rng, thorough):
